@@ -89,7 +89,9 @@ func TestVerifC14(t *testing.T) {
 			_, targetURL := testBackendWithHandler(t, func(w http.ResponseWriter, r *http.Request) {
 				hit = true
 				got, _ = io.ReadAll(r.Body)
-				if sse {
+				if ct := vStr(c["ctype"]); ct != "" {
+					w.Header()["Content-Type"] = []string{ct} // as the target spells it
+				} else if sse {
 					w.Header().Set("Content-Type", "text/event-stream; charset=utf-8")
 				} else {
 					w.Header().Set("Content-Type", "application/octet-stream")
